@@ -16,6 +16,8 @@ package tso
 
 import (
 	"sync/atomic"
+
+	"github.com/kubewharf/kubebrain/pkg/verifhook"
 )
 
 // TSO is the controller of continuous revision windows
@@ -65,12 +67,14 @@ func (n *naiveTSO) Commit(revision uint64) {
 	// applies late (after a newer answer, or after this node has taken over) must not hide committed writes
 	for {
 		committed := atomic.LoadUint64(&n.committedRevision)
+		verifhook.Yield("tso.commit")
 		if revision <= committed || atomic.CompareAndSwapUint64(&n.committedRevision, committed, revision) {
 			break
 		}
 	}
 	// in case leader transfer, need to update tso and pre tso
 	preTSO := atomic.LoadUint64(&n.dealRevision)
+	verifhook.Yield("tso.commit")
 	if preTSO < revision {
 		atomic.CompareAndSwapUint64(&n.dealRevision, preTSO, revision)
 	}
